@@ -380,6 +380,23 @@ class Scenario:
         s.op(0, 'new', ','.join(f'{v}={l}' for v, l in src_levels))
         s.ledger[0] = {}
         self.src_levels = dict(src_levels)
+        # half of the sources are USED managers: nodes were created, some kept for a while, the
+        # rest collected, so that the dumped functions sit on re-used, non-contiguous node numbers
+        junk_held = []
+        if self.rng.random() < 0.5 and names:
+            vs = [s.val(s.op(0, 'var', v)) for v in names]
+            pool = [v for v in vs if v is not None]
+            for _ in range(self.rng.randint(3, 10)):
+                r = s.val(s.op(0, 'apply', self.rng.choice(['and', 'or', 'xor']),
+                               self.rng.choice(pool), -self.rng.choice(pool)))
+                if r is None:
+                    continue
+                pool.append(r)
+                if abs(r) != 1 and self.rng.random() < 0.4:
+                    s.incref(0, r)
+                    junk_held.append(r)
+            s.op(0, 'gc')
+            ctx.count('source:used-manager')
         bld = Builder(s)
         self.refs = []
         self.want = []
@@ -390,6 +407,10 @@ class Scenario:
         for r in self.refs:
             if abs(r) != 1:
                 s.incref(0, r)
+        for r in junk_held:
+            s.decref(0, r)
+        if junk_held:
+            s.op(0, 'gc')
         if as_dict:
             self.roots = {f'r{k}': r for k, r in enumerate(self.refs)}
         else:
